@@ -11,6 +11,8 @@ HEADER = ("From DV Require Import Model.PyPrims Model.Tree Model.C01Model.\n"
           "From Coq Require Import ZArith. Open Scope Z_scope.")
 
 ROOTINGS = (True, False, None)
+VIA_OPS = ("reroot_at_node", "reroot_at_edge", "reseed_at", "to_outgroup_position", "prune_taxa", "retain_taxa",
+           "prune_subtree")
 
 
 # ----------------------------------------------------------------------------------------------
@@ -52,9 +54,26 @@ def gen_enc_case(rng, maxleaves=40, clean=False):
             a["taxon"] = b["taxon"]
             dirty = "duplicate-taxon"
     probes = [rng.getrandbits(n + 6) for _ in range(rng.randint(0, 3))]
-    return {"kind": "enc", "tree": t, "rooted": rng.choice(ROOTINGS), "ns": gen_ns_params(rng, n),
+    case = {"kind": "enc", "tree": t, "rooted": rng.choice(ROOTINGS), "ns": gen_ns_params(rng, n),
             "twice": rng.random() < 0.3, "probes": probes, "shape": shape, "dirty": dirty, "unif": unif > 0,
-            "su": rng.random() < 0.75, "cb": rng.random() < 0.75}
+            "su": rng.random() < 0.75, "cb": rng.random() < 0.75, "hist": [], "via": None}
+    k = rng.random()
+    if k < 0.15:
+        # namespace history before the tree is encoded: bits get cached (taxon_bitmask / an encoded tree),
+        # members are removed and the SAME Taxon objects added back (new accession index)
+        h = []
+        for _ in range(rng.randint(1, 4)):
+            x = rng.randrange(n)
+            h.append(rng.choice([["cache", x], ["cache", x], ["encode"], ["readd", x], ["readd", x], ["readd", x]]))
+        case["hist"] = h
+    elif k < 0.40 and dirty == "clean" and n >= 3 and unif == 0.0:
+        # the encoding is produced by an operation called with update_bipartitions=True
+        for nd in trees.preorder(t):
+            nd["len"] = None
+        case["via"] = [rng.choice(VIA_OPS), rng.randrange(10 ** 6)]
+        case["twice"] = False
+        case["su"] = case["cb"] = True
+    return case
 
 
 def gen_bits_case(rng):
@@ -109,8 +128,53 @@ def setup_tree(case):
     ns, objs = build_ns(case["ns"])
     tree, by_id = trees.build_dendropy(case["tree"], objs, is_rooted=case["rooted"], namespace=ns)
     tindex = {id(o): k for k, o in enumerate(objs)}
+    for op in case.get("hist") or []:
+        if op[0] == "cache":
+            ns.taxon_bitmask(objs[op[1]])
+        elif op[0] == "encode":
+            import dendropy
+            other = dendropy.Tree(taxon_namespace=ns)
+            for o in objs[:len(trees.leaves(case["tree"]))]:
+                other.seed_node.new_child(taxon=o)
+            other.encode_bipartitions()
+        elif op[0] == "readd":
+            ns.remove_taxon(objs[op[1]])
+            ns.add_taxon(objs[op[1]])
     acc = [[k, ns.accession_index(o)] for k, o in enumerate(objs)]
     return ns, objs, tree, tindex, acc
+
+
+def apply_via(tree, via, tindex):
+    """an operation that is asked to leave up-to-date bipartitions behind"""
+    rng = random.Random(via[1])
+    op = via[0]
+    internal = [nd for nd in tree.preorder_node_iter() if nd._child_nodes and nd is not tree.seed_node]
+    nonseed = [nd for nd in tree.preorder_node_iter() if nd is not tree.seed_node]
+    leaves = [nd for nd in tree.leaf_node_iter()]
+    if op in ("reroot_at_node", "reseed_at"):
+        if not internal:
+            return "n/a"
+        getattr(tree, op)(rng.choice(internal), update_bipartitions=True)
+    elif op == "reroot_at_edge":
+        if not internal:
+            return "n/a"
+        tree.reroot_at_edge(rng.choice(internal).edge, update_bipartitions=True)
+    elif op == "to_outgroup_position":
+        tree.to_outgroup_position(rng.choice(nonseed), update_bipartitions=True)
+    elif op in ("prune_taxa", "retain_taxa"):
+        k = rng.randint(1, max(1, len(leaves) - 2))
+        chosen = [nd.taxon for nd in rng.sample(leaves, k)]
+        if op == "retain_taxa":
+            chosen = [nd.taxon for nd in leaves if nd.taxon not in chosen]
+        getattr(tree, op)(chosen, update_bipartitions=True)
+    elif op == "prune_subtree":
+        cand = [nd for nd in nonseed if len(list(nd.leaf_iter())) <= len(leaves) - 2]
+        if not cand:
+            return "n/a"
+        tree.prune_subtree(rng.choice(cand), update_bipartitions=True)
+    else:
+        raise ValueError(op)
+    return "done"
 
 
 def observe_enc(case):
@@ -119,16 +183,34 @@ def observe_enc(case):
     ns, objs, tree, tindex, acc = setup_tree(case)
     kw = {"suppress_unifurcations": case.get("su", True),
           "collapse_unrooted_basal_bifurcation": case.get("cb", True)}
+    via_done = None
     try:
-        tree.encode_bipartitions(**kw)
-        if case["twice"]:
+        if case.get("via"):
+            via_done = apply_via(tree, case["via"], tindex)
+            if via_done == "n/a":
+                tree.encode_bipartitions()
+        else:
             tree.encode_bipartitions(**kw)
+            if case["twice"]:
+                tree.encode_bipartitions(**kw)
     except Exception as e:
-        return {"error": core.exc_enum(e), "acc": acc}
+        return {"error": core.exc_enum(e), "acc": acc, "via_done": via_done}
     spec, problems = trees.dump_dendropy(tree, tindex)
-    edges = [[e.head_node._dv_id, e.bipartition.leafset_bitmask, e.bipartition.split_bitmask]
-             for e in tree.postorder_edge_iter()]
-    enc = [[b.leafset_bitmask, b.split_bitmask] for b in tree.bipartition_encoding]
+
+    def masks(b):
+        if b is None:
+            return [-1, -1]
+        return [b.leafset_bitmask if b.leafset_bitmask is not None else -1,
+                b.split_bitmask if b.split_bitmask is not None else -1]
+    edges = [[e.head_node._dv_id] + masks(e.bipartition) for e in tree.postorder_edge_iter()]
+    enc = [masks(b) for b in (tree.bipartition_encoding or [])]
+    # decoding the stored leafsets through the namespace
+    decoded = []
+    for e in tree.postorder_edge_iter():
+        try:
+            decoded.append(sorted(tindex.get(id(x), -1) for x in e.bipartition.leafset_taxa(ns)))
+        except Exception as ex:
+            decoded.append("raised " + core.exc_enum(ex))
     flags = sorted(set((b.is_rooted, b.is_mutable, b.tree_leafset_bitmask) for b in tree.bipartition_encoding),
                    key=repr)
     tree_mask = tree.seed_node.edge.bipartition.leafset_bitmask
@@ -142,7 +224,8 @@ def observe_enc(case):
         keys = sorted(tree.split_bitmask_edge_map.keys())
     except Exception as e:   # seen: tree without any taxon (tree mask 0) keeps mutable bipartitions -> unhashable
         keys = "raised " + core.exc_enum(e)
-    return {"tree": spec, "problems": problems, "edges": edges, "enc": enc, "rooted": tree.is_rooted,
+    return {"via_done": via_done, "decoded": decoded,
+            "tree": spec, "problems": problems, "edges": edges, "enc": enc, "rooted": tree.is_rooted,
             "acc": acc, "probes": probes, "map_keys": keys, "flags": [list(f) for f in flags]}
 
 
@@ -278,23 +361,35 @@ def oracle_enc(case, obs):
     if [e[0] for e in obs["edges"]] != post_ids:
         return ("edges with bipartitions are not the post-order edges of the tree", "edge-order")
     S = spec_leaf_bits(out, acc)
-    if S != spec_leaf_bits(case["tree"], acc):
+    via = case.get("via") and obs.get("via_done") == "done"
+    tag = ("after %s(update_bipartitions=True): " % case["via"][0]) if via else \
+          (("after namespace history %s: " % case["hist"]) if case.get("hist") else "")
+    if not via and S != spec_leaf_bits(case["tree"], acc):
         return ("leaf taxa changed by encode_bipartitions", "leaf-taxa-changed")
     rooted_after = obs["rooted"]
     low = min(S) if S else None
     for nid, ls, sp in obs["edges"]:
         want = spec_leaf_bits(by_id[nid], acc)
         if ls < 0 or bits_of(ls) != want:
-            return ("leafset bitmask %s of edge %d is not the taxa below it %s" % (bin(ls), nid, sorted(want)),
-                    "leafset-not-exact")
+            return (tag + "leafset bitmask %s of edge %d is not the taxa below it %s (bits by accession_index now)"
+                    % (bin(ls), nid, sorted(want)), "leafset-not-exact")
         if rooted_after:
             wsp = want
         else:
             wsp = (S - want) if (low is not None and low in want) else want
         if sp < 0 or bits_of(sp) != wsp:
-            return ("split bitmask %s of edge %d (leafset %s, tree leaf bits %s, rooted=%s) is not %s"
+            return (tag + "split bitmask %s of edge %d (leafset %s, tree leaf bits %s, rooted=%s) is not %s"
                     % (bin(sp), nid, sorted(want), sorted(S), rooted_after, sorted(wsp)), "split-not-normalised")
-    if obs["enc"] != [[ls, sp] for _n, ls, sp in obs["edges"]]:
+    for (nid, _ls, _sp), dec in zip(obs["edges"], obs.get("decoded", [])):
+        below = sorted(set(n["taxon"] for n in trees.leaves(by_id[nid]) if n["taxon"] is not None))
+        if dec != below:
+            return (tag + "leafset_taxa() of edge %d gives %s, the taxa below are %s" % (nid, dec, below),
+                    "leafset-taxa-decoding")
+    if via:
+        # an operation may reorder children after it has encoded (to_outgroup_position): same bipartitions
+        if sorted(obs["enc"]) != sorted([ls, sp] for _n, ls, sp in obs["edges"]):
+            return (tag + "bipartition_encoding does not hold the bipartitions of the tree's edges", "encoding-list")
+    elif obs["enc"] != [[ls, sp] for _n, ls, sp in obs["edges"]]:
         return ("bipartition_encoding is not the list of the tree's edge bipartitions in post-order", "encoding-list")
     if isinstance(obs["map_keys"], str):
         if S:
@@ -306,6 +401,8 @@ def oracle_enc(case, obs):
     if case.get("su", True) and any(len(n["kids"]) == 1 for n in trees.preorder(out)):
         return ("unifurcation left after encode_bipartitions", "unifurcation-left")
     r0 = case["rooted"]
+    if via:
+        return None       # the operation legitimately changes structure / rooting; masks were checked above
     if rooted_after != r0 and not (r0 is None and rooted_after is False):
         return ("is_rooted changed from %s to %s" % (r0, rooted_after), "rooting-flag")
     if case["dirty"] == "clean":
@@ -479,6 +576,13 @@ def to_coq(case, obs):
                 clist([cpair(cz(n), cpair(cz(l), cz(s))) for n, l, s in obs["edges"]]),
                 clist([cpair(cz(l), cz(s)) for l, s in obs["enc"]]))
             probes = clist([cpair(cz(a), cbool(g)) for a, g, _s in obs["probes"]])
+        if case.get("via") and obs.get("via_done") == "done" and "error" not in obs:
+            exp = "(mkEnc %s %s %s %s)" % (
+                trees.c_tree(obs["tree"]), c_ob(obs["rooted"]),
+                clist([cpair(cz(n), cpair(cz(l), cz(s))) for n, l, s in obs["edges"]]),
+                clist([cpair(cz(l), cz(s)) for _n, l, s in obs["edges"]]))
+            # stored bipartitions after the operation = a plain encoding of the tree as it is now
+            return "(CEnc false false %s %s %s false %s [])" % (acc, c_ob(obs["rooted"]), trees.c_tree(obs["tree"]), exp)
         return "(CEnc %s %s %s %s %s %s %s %s)" % (cbool(case.get("su", True)), cbool(case.get("cb", True)),
                                                   acc, c_ob(case["rooted"]), trees.c_tree(case["tree"]),
                                             cbool(case["twice"]), exp, probes)
@@ -550,10 +654,24 @@ def exhaustive_cases(maxleaves=6):
                            "shuffle": k, "shape": "exhaustive"}
 
 
+def gen_forced(rng, what):
+    """an encode case that surely has a namespace history / goes through an update_bipartitions=True operation"""
+    while True:
+        c = gen_enc_case(rng, clean=(what == "via"))
+        if what == "via" and c["via"]:
+            return c
+        if what == "hist" and c["hist"] and any(op[0] == "readd" for op in c["hist"]):
+            return c
+
+
 def gen_cases(ctx, rng, n_enc, n_from, n_bits, n_bip):
     cases = []
     for _ in range(n_enc):
         cases.append(gen_enc_case(rng))
+    for _ in range(max(1, n_enc // 5)):
+        cases.append(gen_forced(rng, "via"))
+    for _ in range(max(1, n_enc // 8)):
+        cases.append(gen_forced(rng, "hist"))
     for _ in range(n_from):
         cases.append(gen_from_case(rng))
     for _ in range(n_bits):
@@ -670,6 +788,10 @@ def run(tier, seed, replay=None):
             ctx.count("enc:unifurcations" if c["unif"] else "enc:no-unifurcations")
             ctx.count("enc:twice" if c["twice"] else "enc:once")
             ctx.count("enc:suppress_unifurcations=%s" % c.get("su", True))
+            if c.get("hist"):
+                ctx.count("enc:namespace-history")
+            if c.get("via"):
+                ctx.count("enc:via-" + c["via"][0])
             ctx.count("enc:collapse_unrooted_basal_bifurcation=%s" % c.get("cb", True))
         if c["kind"] == "from":
             ctx.count("from:" + c["mode"])
@@ -680,7 +802,7 @@ def run(tier, seed, replay=None):
         rule="random rose trees with 1-40 leaves (binary / polytomy / mixed / caterpillar / star / single node, "
              "optional unifurcations, missing lengths, occasionally a taxon-less or duplicate-taxon leaf), is_rooted "
              "in {True, False, None}, namespaces with vacated accession indices / extra members / sorted; "
-             "encode_bipartitions once or twice with suppress_unifurcations / collapse_unrooted_basal_bifurcation each False in ~25% of the cases, tree-level compatibility probes; rebuild from shuffled encodings, "
+             "namespace histories before encoding (bits cached by taxon_bitmask / an encoded tree, members removed and the same Taxon object re-added); encodings left behind by reroot_at_node / reroot_at_edge / reseed_at / to_outgroup_position / prune_taxa / retain_taxa / prune_subtree called with update_bipartitions=True (every stored mask compared with the naive recomputation for the tree's current structure, rooting flag and namespace; leafset_taxa() decoding); encode_bipartitions once or twice with suppress_unifurcations / collapse_unrooted_basal_bifurcation each False in ~25% of the cases, tree-level compatibility probes; rebuild from shuffled encodings, "
              "encodings with noise and random mask lists; static bit predicates on random mask triples (incl. "
              "negative masks); Bipartition objects built from random masks; thorough adds every shape <= 6 leaves "
              "x 3 rootings x 3 accession maps. A tree case is non-trivial with >= 4 retained edges (enc) or >= 3 "
